@@ -814,6 +814,13 @@ func TestVerifCache(t *testing.T) {
 				must(json.Unmarshal(run.Replay, rp))
 			}
 			res = scenarioC14(t, root, seed, rp, run.Tier)
+		case "c14k":
+			var rp *c14Params
+			if len(run.Replay) > 0 {
+				rp = &c14Params{}
+				must(json.Unmarshal(run.Replay, rp))
+			}
+			res = scenarioC14k(t, root, seed, rp, run.Tier)
 		default:
 			panic("unknown mode " + run.Mode)
 		}
